@@ -165,6 +165,12 @@ type node struct {
 }
 
 func (w *world) openNode(path string, genesisSig cipher.Sig) (*node, error) {
+	return w.openNodeMode(path, genesisSig, w.arb, false)
+}
+
+// openNodeMode opens a node; with keepOnInitError the node is returned together
+// with the Init error (start-up attempts) so that the caller can look at the store.
+func (w *world) openNodeMode(path string, genesisSig cipher.Sig, arb bool, keepOnInitError bool) (*node, error) {
 	bdb, err := bolt.Open(path, 0600, &bolt.Options{Timeout: 2 * time.Second})
 	if err != nil {
 		return nil, err
@@ -175,10 +181,10 @@ func (w *world) openNode(path string, genesisSig cipher.Sig) (*node, error) {
 	// follower: the configuration of every node that receives blocks; arbitrating:
 	// the block publisher's configuration (src/skycoin/skycoin.go sets
 	// Arbitrating = RunBlockPublisher), which is handed blocks through the same entry point
-	cfg.IsBlockPublisher = w.arb
-	cfg.Arbitrating = w.arb
+	cfg.IsBlockPublisher = arb
+	cfg.Arbitrating = arb
 	cfg.BlockchainPubkey = w.pub
-	if w.arb {
+	if arb {
 		cfg.BlockchainSeckey = w.sec
 	}
 	cfg.GenesisAddress = w.addrs[0]
@@ -196,6 +202,9 @@ func (w *world) openNode(path string, genesisSig cipher.Sig) (*node, error) {
 		return nil, err
 	}
 	if err := v.Init(); err != nil {
+		if keepOnInitError {
+			return &node{v: v, db: db, bdb: bdb, path: path}, err
+		}
 		bdb.Close()
 		return nil, err
 	}
@@ -239,6 +248,64 @@ func (n *node) head() (coin.SignedBlock, error) {
 		return coin.SignedBlock{}, err
 	}
 	return *b, nil
+}
+
+// startAttempts starts non-publisher nodes on fresh empty databases with the
+// history's genesis parameters and a GenesisSignature that is wrong in one of
+// several ways (plus the right one as a control). Returns the Coq triples
+// (signature verifies, Init succeeded, block 0 stored) and their descriptions.
+func (w *world) startAttempts(gb *coin.Block, good cipher.Sig, n int) ([]string, []string) {
+	var items, descs []string
+	for i := 0; i < n; i++ {
+		sig := good
+		kind := "good"
+		switch w.r.Intn(7) {
+		case 0:
+			kind = "zero"
+			sig = cipher.Sig{}
+		case 1:
+			kind = "other_key"
+			sig = w.detSign(gb.HashHeader(), w.otherSec)
+		case 2:
+			kind = "publisher_over_other_header"
+			other := *gb
+			other.Head.Time++
+			sig = w.detSign(other.HashHeader(), w.sec)
+		case 3:
+			kind = "bitflip"
+			sig[w.r.Intn(64)] ^= 1 << uint(w.r.Intn(8))
+		case 4:
+			kind = "wallet_key"
+			sig = w.detSign(gb.HashHeader(), w.keys[0])
+		case 5:
+			kind = "publisher_over_body_hash"
+			sig = w.detSign(gb.Head.BodyHash, w.sec)
+		}
+		sigOK := cipher.VerifyPubKeySignedHash(w.pub, sig, gb.HashHeader()) == nil
+		path := filepath.Join(w.dir, fmt.Sprintf("start%d.db", i))
+		os.Remove(path)
+		started, stored := false, false
+		var nd *node
+		var err error
+		panicked := Guard(func() { nd, err = w.openNodeMode(path, sig, false, true) })
+		if !panicked {
+			started = err == nil
+			if nd != nil {
+				if b, e := nd.v.GetSignedBlockBySeq(0); e == nil && b != nil {
+					stored = true
+					// a started node's block 0 must verify
+					if started && (b.VerifySignature(w.pub) != nil || !checkDB(nd, w.pub)) {
+						started = false // reported as "stored although not started"
+					}
+				}
+				nd.close()
+			}
+		}
+		os.Remove(path)
+		items = append(items, fmt.Sprintf("(%s, %s, %s)", B(sigOK), B(started), B(stored)))
+		descs = append(descs, fmt.Sprintf("%s:sig_ok=%v,started=%v,stored=%v", kind, sigOK, started, stored))
+	}
+	return items, descs
 }
 
 // ---------------------------------------------------------------- errors -> enum
@@ -577,7 +644,7 @@ func (w *world) txnTerm(t coin.Transaction, bh coin.BlockHeader, headSeq uint64)
 	}
 	// o_id is the id processTransactions derives (source = the transaction hash);
 	// the snapshot hash is that of the output as this block would create it
-	created := coin.CreateUnspents(bh, t)
+	created := mkUnspents(bh, t, bh.BkSeq == 0)
 	for i, o := range t.Out {
 		body := coin.UxBody{SrcTransaction: t.Hash(), Address: o.Address, Coins: o.Coins, Hours: o.Hours}
 		outs = append(outs, fmt.Sprintf("mkOut %d %s %s %d %s", w.addrID(o.Address), Z(o.Coins), Z(o.Hours),
@@ -585,7 +652,7 @@ func (w *world) txnTerm(t coin.Transaction, bh coin.BlockHeader, headSeq uint64)
 	}
 	if headSeq == 0 {
 		// CreateUnspents(head, txn) with the genesis header uses the null source hash
-		for _, ux := range coin.CreateUnspents(coin.BlockHeader{BkSeq: 0}, t) {
+		for _, ux := range mkUnspents(coin.BlockHeader{BkSeq: 0}, t, true) {
 			ids0 = append(ids0, zi(w.id(ux.Hash())))
 		}
 	}
@@ -737,6 +804,8 @@ var mutKinds = []string{
 	"prevhash", "bodyhash", "uxhash", "empty_block", "drop_txn", "permute_txns",
 	"sig_bitflip", "sig_otherkey", "sig_null", "sig_replay", "sig_replay", "sig_replay",
 	"dup_block", "old_block", "out_of_order", "second_genesis", "unknown_input",
+	"resigned_after_inject", "resigned_after_inject", "resigned_after_reject", "resigned_after_reject",
+	"huge_hours_create", "huge_hours_create", "huge_hours_spend", "huge_hours_spend",
 }
 
 // header mutations are submitted either re-signed by the publisher key (so only
@@ -755,6 +824,8 @@ type history struct {
 	unspent  []coin.UxOut
 	hist     Hist
 	nodeSig  *cipher.Sig // the signature the node itself produced most recently (publisher node)
+	pending  *opRec      // second half of a two-op pattern (near-identical items back to back)
+	pendKind string      // ... or the mutation kind to build right after the current op
 }
 
 // nextValid builds a valid next block on the node's current head with k transactions.
@@ -834,6 +905,25 @@ func (h *history) nodeSigned() (opRec, bool) {
 	sig := sb.Sig
 	h.nodeSig = &sig
 	return opRec{kind: "node_signed", resigned: true, sb: sb}, true
+}
+
+// mkUnspents computes the outputs a block with header bh creates for t WITHOUT
+// going through coin.CreateUnspents: the harness must not share (or refresh) any
+// state the node's own code keeps between calls. src is the transaction hash,
+// or the null hash for the genesis block.
+func mkUnspents(bh coin.BlockHeader, t coin.Transaction, nullSrc bool) coin.UxArray {
+	var src cipher.SHA256
+	if !nullSrc {
+		src = t.Hash()
+	}
+	uxo := make(coin.UxArray, len(t.Out))
+	for i, o := range t.Out {
+		uxo[i] = coin.UxOut{
+			Head: coin.UxHead{Time: bh.Time, BkSeq: bh.BkSeq},
+			Body: coin.UxBody{SrcTransaction: src, Address: o.Address, Coins: o.Coins, Hours: o.Hours},
+		}
+	}
+	return uxo
 }
 
 func rehash(b *coin.Block) { b.Head.BodyHash = b.Body.Hash() }
@@ -971,6 +1061,84 @@ func (h *history) mutate(kind string) (opRec, bool) {
 		}
 		b.Body.Transactions = txs
 		rehash(&b)
+	case "resigned_after_inject", "resigned_after_reject":
+		// Two variants of ONE transaction body (same inputs and outputs, hence the same
+		// inner hash) signed twice: different signatures, different transaction hashes,
+		// different output ids. Variant A reaches the node first (injected into its pool,
+		// or inside a block that is refused late, after the transactions were processed);
+		// the accepted block then carries variant B. State the node keeps between
+		// operations (caches, memos) must not leak A's identity into what B creates.
+		if head.Head.BkSeq == 0 {
+			return opRec{}, false
+		}
+		tA := b.Body.Transactions[0]
+		tB := w.buildTxn(in0, tA.Out, txOpt{})
+		if tB.Hash() == tA.Hash() || tB.InnerHash != tA.InnerHash {
+			return opRec{}, false
+		}
+		bB := b
+		bB.Body.Transactions = append(coin.Transactions{tB}, b.Body.Transactions[1:]...)
+		rehash(&bB)
+		second := opRec{kind: kind, resigned: true, sb: w.sign(bB, w.sec)}
+		if kind == "resigned_after_inject" {
+			if _, _, err := h.n.v.InjectForeignTransaction(tA); err != nil {
+				return opRec{}, false
+			}
+			return second, true
+		}
+		// refused after processTransactions: wrong checksum, validly signed
+		bA := b
+		bA.Head.UxHash[24+r.Intn(8)] ^= 1 << uint(r.Intn(8))
+		h.pending = &second
+		return opRec{kind: "resigned_first_rejected", resigned: true, sb: w.sign(bA, w.sec)}, true
+	case "huge_hours_create":
+		// block transactions may carry output hours whose sum wraps 2^64 (legacy
+		// consensus rule): two outputs of 2^63 hours each out of any input
+		// (an arbitrating node drops such a transaction when it sorts by fee: the
+		// checked output-hours sum of the fee calculator fails)
+		c, _ := sumIn(in0)
+		if c < 2 || (w.arb && r.Chance(70)) {
+			return opRec{}, false
+		}
+		c1 := 1 + upTo(r, c-2)
+		x := uint64(r.Intn(1000))
+		outs := []coin.TransactionOutput{ // the hours add up to exactly 2^64: the unchecked sum is 0
+			{Address: w.addrs[r.Intn(nKeys)], Coins: c1, Hours: uint64(1)<<63 + x},
+			{Address: w.addrs[r.Intn(nKeys)], Coins: c - c1, Hours: uint64(1)<<63 - x},
+		}
+		b.Body.Transactions[0] = w.buildTxn(in0, outs, txOpt{})
+		rehash(&b)
+		if !w.arb || r.Chance(50) {
+			h.pendKind = "huge_hours_spend" // spend the two together right away
+		}
+	case "huge_hours_spend":
+		// two outputs whose hours add up to more than a uint64 holds, spent together
+		// by a transaction that creates (or destroys) a coin
+		var big []coin.UxOut
+		for _, ux := range h.unspent {
+			if _, ok := w.keyOf[ux.Body.Address]; ok && ux.Body.Hours >= uint64(1)<<63-1000 {
+				big = append(big, ux)
+			}
+		}
+		if len(big) < 2 {
+			if h.pendKind != "" { // no recursion when the create was not accepted
+				return opRec{}, false
+			}
+			return h.mutate("huge_hours_create")
+		}
+		ins := []coin.UxOut{big[0], big[1]}
+		c := big[0].Body.Coins + big[1].Body.Coins
+		if c < big[0].Body.Coins || c < 2 || c == ^uint64(0) {
+			return opRec{}, false
+		}
+		if r.Bool() {
+			c++
+		} else {
+			c--
+		}
+		t := w.buildTxn(ins, []coin.TransactionOutput{{Address: w.addrs[r.Intn(nKeys)], Coins: c, Hours: 0}}, txOpt{})
+		b.Body.Transactions = coin.Transactions{t}
+		rehash(&b)
 	case "dsp_spent":
 		if len(h.spent) == 0 {
 			return opRec{}, false
@@ -986,7 +1154,7 @@ func (h *history) mutate(kind string) (opRec, bool) {
 		b.Body.Transactions = append(b.Body.Transactions, t)
 		rehash(&b)
 	case "dsp_sameblock_created":
-		created := coin.CreateUnspents(b.Head, t0)
+		created := mkUnspents(b.Head, t0, false)
 		ux := created[r.Intn(len(created))]
 		t := w.buildTxn([]coin.UxOut{ux}, w.splitOuts(ux.Body.Coins, ux.Body.Hours), txOpt{})
 		b.Body.Transactions = append(b.Body.Transactions, t)
@@ -1211,6 +1379,10 @@ func run(args []string) error {
 			return err
 		}
 		genesis := w.sign(*gb, w.sec)
+		starts, startDescs := w.startAttempts(gb, genesis.Sig, 3)
+		for _, d := range startDescs {
+			hist.Add("start:" + strings.SplitN(d, ":", 2)[0])
+		}
 		nd, err := w.openNode(filepath.Join(dir, "node.db"), genesis.Sig)
 		if err != nil {
 			return err
@@ -1219,7 +1391,7 @@ func run(args []string) error {
 		// the genesis block as the model sees it (its outputs use the null source hash)
 		gname := func() string {
 			t := gb.Body.Transactions[0]
-			ux := coin.CreateUnspents(gb.Head, t)
+			ux := mkUnspents(gb.Head, t, true)
 			var outs []string
 			for i, out := range t.Out {
 				outs = append(outs, fmt.Sprintf("mkOut %d %s %s %d %s", w.addrID(out.Address), Z(out.Coins), Z(out.Hours),
@@ -1243,7 +1415,7 @@ func run(args []string) error {
 			return err
 		}
 		h.unspent = uxs
-		opsJSON = append(opsJSON, map[string]interface{}{"hist": hi, "op": 0, "kind": "init", "resigned": false, "result": "", "genesis_volume": fmt.Sprint(w.genVol)})
+		opsJSON = append(opsJSON, map[string]interface{}{"hist": hi, "op": 0, "kind": "init", "resigned": false, "result": "", "genesis_volume": fmt.Sprint(w.genVol), "start_attempts": strings.Join(startDescs, " ")})
 		nops := 10 + r.Intn(31)
 		if f.Tier != "quick" && r.Chance(10) {
 			nops = 60 + r.Intn(60)
@@ -1253,7 +1425,14 @@ func run(args []string) error {
 		for k := 1; k <= nops; k++ {
 			var op opRec
 			ok := false
-			if r.Chance(42) || k == 1 {
+			if h.pending != nil {
+				op, ok = *h.pending, true
+				h.pending = nil
+			} else if h.pendKind != "" {
+				pk := h.pendKind
+				op, ok = h.mutate(pk)
+				h.pendKind = ""
+			} else if r.Chance(42) || k == 1 {
 				if w.arb && r.Chance(35) {
 					op, ok = h.nodeSigned()
 				}
@@ -1353,7 +1532,7 @@ func run(args []string) error {
 		os.RemoveAll(dir)
 		o.Raw(p.defs.String())
 		hn := fmt.Sprintf("h%d", hi)
-		o.Raw(fmt.Sprintf("Definition %s : history := mkHist %s %s %s %s\n  %s.\n", hn, B(w.arb), gname, Z(w.genVol), d0, List(steps)))
+		o.Raw(fmt.Sprintf("Definition %s : history := mkHist %s %s %s %s %s\n  %s.\n", hn, B(w.arb), gname, Z(w.genVol), d0, List(starts), List(steps)))
 		histNames = append(histNames, hn)
 		hist.Add(fmt.Sprintf("history_len:%02d-%02d", (len(steps)/10)*10, (len(steps)/10)*10+9))
 	}
